@@ -65,3 +65,28 @@ pub mod sched {
     #[inline]
     pub fn yield_at(id: u32) { if let Some(f) = HOOK.get() { f(id) } }
 }
+
+/// Hook H5 (property C12): a recording tap inside the CKKS encoder (the floating-point coefficient vector right before it is
+/// rounded and converted to RNS form, together with the bit count that selects the 64-bit / 128-bit / multi-word path).
+/// Thread-local and inert unless the harness arms it.
+pub mod ckks_hooks {
+    use std::cell::RefCell;
+
+    #[derive(Clone, Debug)]
+    pub struct Rec {
+        /// which `encode_internal_*` function recorded
+        pub entry: &'static str,
+        /// the bit count the function computed to choose its magnitude path (recorded after the refusal test passed)
+        pub bit_count: usize,
+        /// the values that are rounded next (`conj_values[i].re`, `values[i] * scale`, `value * scale`)
+        pub coeffs: Vec<f64>,
+    }
+
+    thread_local! { static TAP: RefCell<Option<Vec<Rec>>> = RefCell::new(None); }
+
+    pub fn arm() { TAP.with(|t| *t.borrow_mut() = Some(Vec::new())); }
+    pub fn take() -> Vec<Rec> { TAP.with(|t| t.borrow_mut().take().unwrap_or_default()) }
+    pub fn record(entry: &'static str, bit_count: usize, coeffs: impl FnOnce() -> Vec<f64>) {
+        TAP.with(|t| if let Some(v) = t.borrow_mut().as_mut() { v.push(Rec { entry, bit_count, coeffs: coeffs() }) });
+    }
+}
